@@ -137,3 +137,59 @@ def _ad_inv(s):
 
 
 ad.loop("for#0", invariant=_ad_inv)
+
+
+# ================================================================ cli/train_model.main: what the model is trained on (REGION: from
+# `observed_subset = data.subset_observed()` to the end of the `if` that calls add_observations).  Claim: the model receives, at most once,
+# exactly the object returned by data.subset_observed() - never the screen itself or another view - and nothing when there is no observed row.
+import ast as _ast4
+from pyvc.spec import abstract_class, TOpt
+from pyvc.values import OptV
+abstract_class("ModelTok", "batchie.core.BayesianModel", {})
+from . import c14 as _c14  # noqa  (registers the Screen view contracts)
+from pyvc.spec import REGISTRY as _REG14  # noqa
+_so = _REG14.get(SCREEN + ".subset_observed")
+
+
+def _so_apply(i, a, node, fr):
+    if not i._cur_label.split("[")[0].endswith("@trains_on"):
+        return NotImplemented
+    tok = i.ctx.fresh("observed_view", Ref)
+    i.ctx.ghost["observed_view"] = (a.self, tok)
+    return OptV(i.ctx.fresh("no_observed_rows", Bool), AObj("ScreenSubset", tok))
+
+
+def _ao_apply(i, a, node, fr):
+    if not i._cur_label.split("[")[0].endswith("@trains_on"):
+        return NotImplemented
+    i.ctx.ghost.setdefault("training_calls", []).append(a.data)
+    return None
+
+
+if _so is not None:
+    _so.inline = False
+    _so.apply = _so_apply
+ao.apply = _ao_apply
+
+tm = contract("batchie.cli.train_model.main@trains_on", params=[("data", TAObj("Screen")), ("model", TAObj("ModelTok"))])
+tm.region = (lambda st: isinstance(st, _ast4.Assign) and getattr(st.targets[0], "id", None) == "observed_subset", lambda st: isinstance(st, _ast4.If))
+
+
+def _tm_post(a, ret, st):
+    g = st.ctx.ghost
+    ov = g.get("observed_view")
+    calls = g.get("training_calls", [])
+    sub = st._cur_frame.locals.get("observed_subset")
+    none = sub.isnone if isinstance(sub, OptV) else z3.BoolVal(sub is None)
+    out = [("asks_the_loaded_screen_for_its_observed_part", bool_(ov is not None and ov[0] is a.data)),
+           ("at_most_one_training_call", bool_(len(calls) <= 1))]
+    if calls:
+        d = calls[0]
+        d = d.val if isinstance(d, OptV) else d
+        out.append(("trains_on_exactly_the_observed_part", z3.And(z3.Not(none), bool_(ov is not None and isinstance(d, AObj) and d.term.eq(ov[1])))))
+    else:
+        out.append(("no_training_call_only_without_observed_rows", none))
+    return out
+
+
+tm.ensures("plumbing", _tm_post)
